@@ -41,8 +41,8 @@ type childJob struct {
 	// Workers[j] = sequence of chunk indices stored by writer j. One writer: it runs on the
 	// main thread. Several: each on its own locked thread, the main thread only waits.
 	Workers [][]int `json:"workers"`
-	Fsize   int64   `json:"fsize"` // RLIMIT_FSIZE, <0 = unlimited
-	Warm    int     `json:"warm"`  // multi-writer: openat+close pairs every writer thread does before the start marker
+	Fsize   int64   `json:"fsize"`         // RLIMIT_FSIZE, <0 = unlimited
+	Warm    int     `json:"warm"`          // multi-writer: openat+close pairs every writer thread does before the start marker
 	Bad     string  `json:"bad,omitempty"` // self-test of the oracle: ref = the harness' own atomic routine; direct = write the final name in two steps; stray = leave a file Prune does not know
 }
 
